@@ -182,6 +182,20 @@ func taskAborted(t *Task) bool { return t.aborted }
 //go:norace
 func setAborted(t *Task) { t.aborted = true }
 
+var evSeq int64
+
+// Stamp returns the next value of a global event sequence. Tasks are
+// serialised, so the sequence is a total order of everything that happens in
+// a run (used to stamp invocation/return events of recorded histories).
+//
+//go:norace
+func Stamp() int64 { evSeq++; return evSeq }
+
+// ResetStamp restarts the event sequence (called between runs).
+//
+//go:norace
+func ResetStamp() { evSeq = 0 }
+
 // CurrentLocal returns the request-local state of the running task or solo
 // caller (nil if none).
 func CurrentLocal() *Local {
@@ -302,7 +316,16 @@ func Run(cfg Config, bodies []func(t *Task)) *Result {
 			<-t.wake
 			register(t)
 			raceEnable()
-			body(t)
+			func() {
+				defer func() {
+					if p := recover(); p != nil {
+						if _, ok := p.(Abort); !ok {
+							panic(p)
+						}
+					}
+				}()
+				body(t)
+			}()
 			raceDisable()
 			t.back <- msg{-1}
 			raceEnable()
